@@ -162,7 +162,7 @@ def tocEntries (c : WalkCfg) (subdirs files : List Str) : List Str :=
   (if c.recursive then subdirs.map (· ++ lit "/index.rst") else []) ++ (files.filter isCMakeName).map stem
 
 /-- the title of the index of directory `rel` -/
-def indexTitle (c : WalkCfg) (pfx : Str) (rel : List Str) : Str := withPrefix (some pfx) c.sep (relStr rel)
+def indexTitle (c : WalkCfg) (pfx : Str) (rel : List Str) : Str := if rel.isEmpty then pfx else pfx ++ c.sep ++ relStr rel
 
 /-- the index document before serialisation -/
 def indexDoc (c : WalkCfg) (pfx hc : Str) (rel subdirs files : List Str) : Doc :=
